@@ -121,7 +121,7 @@ def run_all(tier, seed):
     r = random.Random(seed * 92821 + 11)
     fails, tags = [], collections.Counter()
     lines, expect, ctxs = [], [], []
-    n_cases = {"quick": 25, "thorough": 500}[tier]
+    n_cases = {"quick": 25, "thorough": 3000}[tier]
 
     def fail(key, what, ctx):
         fails.append(common.Failure("oracle", "C20:" + key, what, ctx))
